@@ -120,13 +120,92 @@ pub fn pending_batch_journal(rng: &mut Rng, img: &mut Vec<u8>) -> Option<&'stati
     Some("pending-batch-journal")
 }
 
+/// An older, one-block generation of a key whose newest generation spans several blocks, planted
+/// ABOVE the newest one in a free block that is directly followed by a live record head: a scan
+/// that advances by anything but the older generation's own length steps over that head.
+pub fn plant_stale_generation(rng: &mut Rng, img: &mut Vec<u8>) -> Option<&'static str> {
+    let version = image_version(img);
+    let nb = blocks(img);
+    let mut covered = vec![false; nb];
+    let mut heads: Vec<(usize, usize)> = Vec::new();
+    let mut s = 16;
+    while s < nb {
+        if img[s * B] == 0xCD && img[s * B + 1] == 0xAB {
+            let n = claimed_blocks(img, s, version);
+            heads.push((s, n));
+            for c in covered.iter_mut().skip(s).take(n) {
+                *c = true;
+            }
+            s += n;
+        } else {
+            s += 1;
+        }
+    }
+    let ext = if version == 1 { 0 } else { 8 };
+    let winners: Vec<(usize, usize)> = heads
+        .iter()
+        .copied()
+        .filter(|(h, n)| {
+            let klen = u16::from_le_bytes([img[h * B + 4], img[h * B + 5]]) as usize;
+            *n >= 2 && 6 + klen + 16 + ext + 16 <= B && u64::from_le_bytes(img[h * B + 14 + klen..h * B + 22 + klen].try_into().unwrap()) >= 2
+        })
+        .collect();
+    if winners.is_empty() {
+        return None;
+    }
+    let (w, _) = *rng.pick(&winners);
+    let spots: Vec<usize> = (w + 1..nb.saturating_sub(1)).filter(|f| !covered[*f] && heads.iter().any(|(h, _)| *h == f + 1)).collect();
+    if spots.is_empty() {
+        return None;
+    }
+    let f = *rng.pick(&spots);
+    let klen = u16::from_le_bytes([img[w * B + 4], img[w * B + 5]]) as usize;
+    let ts = u64::from_le_bytes(img[w * B + 14 + klen..w * B + 22 + klen].try_into().unwrap());
+    let mut rec = vec![0u8; B];
+    rec[0] = 0xCD;
+    rec[1] = 0xAB;
+    rec[4..6 + klen].copy_from_slice(&img[w * B + 4..w * B + 6 + klen]);
+    let value = b"stale-older-gen";
+    rec[6 + klen..14 + klen].copy_from_slice(&(value.len() as u64).to_le_bytes());
+    rec[14 + klen..22 + klen].copy_from_slice(&(ts - 1).to_le_bytes());
+    let hdr = 6 + klen + 16 + ext;
+    rec[hdr..hdr + value.len()].copy_from_slice(value);
+    img[f * B..(f + 1) * B].copy_from_slice(&rec);
+    restamp_record(img, f, version);
+    Some("stale-small-generation-above-its-successor")
+}
+
 /// Apply one mutation; returns its name.
 pub fn mutate(rng: &mut Rng, img: &mut Vec<u8>) -> &'static str {
     let nb = blocks(img);
     let version = image_version(img);
     let heads = head_sectors(img);
     let markers = marker_sectors(img);
-    match rng.below(16) {
+    match rng.below(18) {
+        17 => {
+            if let Some(name) = plant_stale_generation(rng, img) {
+                return name;
+            }
+            img[16 * B + 9] ^= 1;
+            "bit-flips"
+        }
+        16 if !heads.is_empty() => {
+            // a plausible record (value length at most 4 MiB) whose extent ends a few blocks beyond the
+            // device: a file truncated inside a record, or a forged length
+            let s = *rng.pick(&heads);
+            let klen = u16::from_le_bytes([img[s * B + 4], img[s * B + 5]]) as usize;
+            if 6 + klen + 8 > B {
+                return "bit-flips";
+            }
+            let hdr = 6 + klen + 16 + if version == 1 { 0 } else { 8 };
+            let blocks_wanted = (nb - s) as u64 + rng.range(1, 3);
+            let vlen = (blocks_wanted * B as u64).saturating_sub(hdr as u64).saturating_sub(rng.below(B as u64 - 1)).min(4 * 1024 * 1024).max(1);
+            img[s * B + 6 + klen..s * B + 14 + klen].copy_from_slice(&vlen.to_le_bytes());
+            if rng.chance(4, 5) {
+                restamp_record(img, s, version);
+            }
+            "extent-leaves-device"
+        }
         0 => {
             for b in img.iter_mut() {
                 *b = rng.next() as u8;
